@@ -276,37 +276,20 @@ pub fn check_html_cfg(html: &str, html_noids: Option<&str>, width: usize, rich: 
                     Some("span" | "u" | "font" | "ins" | "s" | "del" | "strike") => true,
                     Some("em" | "i" | "strong" | "b" | "code") => rich,
                     Some("a") => rich || dom.attr(a, "href").is_none(),
-                    Some("p" | "div" | "ul" | "ol" | "li" | "blockquote" | "dl" | "dd" | "pre" | "table" | "thead" | "tbody" | "tfoot" | "tr" | "td" | "th") => blocks_too,
+                    Some("p" | "div" | "ul" | "ol" | "li" | "blockquote" | "dl" | "dd" | "pre" | "table" | "thead" | "tbody" | "tfoot" | "tr" | "td" | "th" | "h1" | "h2" | "h3" | "h4" | "h5" | "h6") => blocks_too,
+                    Some("dt") => blocks_too && rich,
                     _ => false,
                 };
                 // everything inside e before its first character is an element without decoration
                 let inner_plain = |blocks_too: bool| !dom.is_elem(fnode) && preorder(&dom, e).iter().skip(1).take_while(|n| **n != fnode).all(|n| neutral(*n, blocks_too));
-                let wrapped_only = match prev {
-                    // nothing rendered before it in its scope: no finished block can have taken the marker
-                    None => {
-                        // no text at all (not even white space, which a <pre> would render), line break,
-                        // rule or image before the element, and no decorated ancestor
-                        let order = preorder(&dom, own_scope);
-                        let upto = order.iter().position(|n| *n == e).unwrap_or(0);
-                        inner_plain(true)
-                            && neutral(e, true)
-                            && dom.ancestors(e).iter().take_while(|a| **a != own_scope && dom.is_elem(**a) && !matches!(dom.name(**a), Some("html" | "body"))).all(|a| neutral(*a, true))
-                            && order[..upto].iter().all(|n| dom.is_elem(*n) && !matches!(dom.name(*n), Some("br" | "hr" | "img")) || *n == 0)
-                    }
-                    Some(p) => {
-                        // the line break before the element comes from word wrapping ...
-                        (inner_plain(false) && neutral(e, false) && same_inline_run(&dom, items[p].0, fnode))
-                            // ... or the element opens a block of its own
-                            || (matches!(dom.name(e), Some("p" | "ul" | "ol" | "li" | "blockquote" | "pre" | "dd" | "table")) && inner_plain(true))
-                    }
-                };
-                if exclude_known && before == 0 && lead_in_e > 0 {
-                    st.exclude("same-line not asserted: white space / zero-width text between the marker and the element's first character");
-                } else if exclude_known && before == 0 && !wrapped_only {
-                    // the marker was recorded right after the end of a block (KF-C14-marker-line)
-                    st.exclude("same-line not asserted: the element's first character starts a line after a block boundary (KF-C14-marker-line)");
+                // an inline element whose content starts with a block starts with a forced break
+                let wrapped_only = if neutral(e, false) { inner_plain(false) } else { neutral(e, true) && inner_plain(true) };
+                if before == 0 && lead_in_e > 0 {
+                    st.class("same-line not asserted: white space / zero-width text between the marker and the element's first character");
+                } else if before == 0 && !wrapped_only {
+                    st.class("same-line not asserted: decoration text or a block start between the marker and the element's first character");
                 } else if fl == marker_line {
-                    st.class(if prev.is_some() { "same_line_held_for_element_starting_a_line_after_a_wrap" } else { "same_line_held_for_first_element_of_its_scope" });
+                    st.class(if prev.is_some() { "same_line_held_for_element_starting_a_line" } else { "same_line_held_for_first_element_of_its_scope" });
                 } else {
                     return Err(show(format!("marker {:?} of <{}> is on line {} but the element's first character is on line {}", name, dom.name(e).unwrap_or("?"), marker_line, fl)));
                 }
@@ -357,7 +340,7 @@ pub fn check_explicit(case: &ExplicitFrag, st: &mut Stats) -> Result<(), String>
 
 fn explicit_items() -> Vec<ExplicitFrag> {
     let e = |h: &str, w: usize| ExplicitFrag { html: h.into(), width: w, overflow: false, noids: None, lenient: false };
-    let o = |h: &str, n: &str| ExplicitFrag { html: h.into(), width: 1, overflow: true, noids: Some(n.into()), lenient: h.starts_with("<p>\u{4e00}</p>") || h.contains("\u{301}b") };
+    let o = |h: &str, n: &str| ExplicitFrag { html: h.into(), width: 1, overflow: true, noids: Some(n.into()), lenient: false };
     vec![
         // fixed by 97e9be7 (overflowing wide characters, markers and combining marks at width 1)
         o("<p>\u{4e00}</p><em id=\"i0\">b</em>", "<p>\u{4e00}</p><em>b</em>"),
@@ -365,6 +348,11 @@ fn explicit_items() -> Vec<ExplicitFrag> {
         o("<p><s>\u{4e00}<a id=\"\">\u{4e01}</a></s></p>", "<p><s>\u{4e00}<a>\u{4e01}</a></s></p>"),
         o("<p>\u{4e00}\u{301}<span id=\"\">\u{4e01}</span></p>", "<p>\u{4e00}\u{301}<span>\u{4e01}</span></p>"),
         o("\u{4e00}<u id=\"\">\u{301}b</u>", "\u{4e00}<u>\u{301}b</u>"),
+        // fixed by c2083a6 (markers recorded after a finished block; was KF-C14-marker-line)
+        e("<p>a</p><div id=\"i0\">b</div>", 20),
+        e("<p>a</p><span id=\"x\">b</span>", 20),
+        e("<p>a</p><dl id=\"d\"><dt>t</dt></dl>", 20),
+        e("<ul><li>a</li></ul><a name=\"n\">b</a>", 20),
         // fixed by 894454a (marker stays with a piece hard-wrapped onto a new line)
         e("<p>ab<a id=\"x\">cd</a></p>", 2),
         e("<p>ab<span id=\"x\"><u>cd</u>ef</span></p>", 2),
@@ -447,7 +435,7 @@ pub fn property() -> Property {
     Property {
         id: "C14",
         level: "exploration",
-        rule: "grammar documents with one identifying character per text node and unique ids on random elements (p, div, span, em and other inline elements, a[name], img, li, ul, ol, blockquote, h*, pre, td, tr, table, dl/dt/dd), width 1..=100 with 40% of cases at width 1..=8 (first words hard-wrapped), plain and rich line output, 25% with allow_width_overflow. Oracle from the oracle DOM and the linearised element stream of the output: every id on an element with visible text has exactly one FragmentStart; restricted to the characters of the element's scope (innermost table cell, or the document) the marker lies after every character preceding the element and before every character of the element; it is on the same line as the element's first character unless a <br> precedes that character inside the element - asserted for elements that start mid-line, for elements that start a line after word wrapping (soft or hard, incl. allow_width_overflow at width 1), for the first element of a scope and for p/ul/ol/li/blockquote/pre/dd/table opening their own block, whenever no white space, zero-width text or decoration separates marker and character (other line-starting elements: KF-C14-marker-line, counted); the string output is byte-identical with all ids removed. Non-trivial = a checked id inside a list item / quote / dd / table cell; distinct by the whole case.",
+        rule: "grammar documents with one identifying character per text node and unique ids on random elements (p, div, span, em and other inline elements, a[name], img, li, ul, ol, blockquote, h*, pre, td, tr, table, dl/dt/dd), width 1..=100 with 40% of cases at width 1..=8 (first words hard-wrapped), plain and rich line output, 25% with allow_width_overflow. Oracle from the oracle DOM and the linearised element stream of the output: every id on an element with visible text has exactly one FragmentStart; restricted to the characters of the element's scope (innermost table cell, or the document) the marker lies after every character preceding the element and before every character of the element; it is on the same line as the element's first character unless the element starts with a forced break (a <br>, or a block inside an inline element) or white space, zero-width text or decoration text (`*`, `[`, `^{`) separates the marker from that character (a wrap may fall between them; counted) - asserted for every other id-bearing element, mid-line or line-starting, incl. hard-wrapped words and allow_width_overflow at width 1; the string output is byte-identical with all ids removed. Non-trivial = a checked id inside a list item / quote / dd / table cell; distinct by the whole case.",
         assumptions: vec!["ids on elements without visible text are outside the claim (tolerated)", "id on table/thead/tbody/tr whose first cell has no text is a known finding (excluded by predicate, counted)"],
         hang_is_violation: false,
         subs: vec![
